@@ -432,7 +432,8 @@ def cases(draw):
                 # logical time is the physical present). Only clock 1, whose
                 # tasks never change its tempo, and only this one thread:
                 # two tempo changes in flight at once have no defined order
-                ops.append(['tempo', 1, draw(st.sampled_from([0.5, 1, 2, 4]))])
+                ops.append([draw(st.sampled_from(['tempo', 'tempo', 'etempo'])),
+                            1, draw(st.sampled_from([0.5, 1, 2, 4]))])
             elif k == 10 and nclocks and is_main and not stopped[0]:
                 # the last TempoClock is used by the main thread only, so
                 # that stop() does not race with calls from other threads
